@@ -3,6 +3,7 @@
 
 use simrt::rng::Rng;
 
+use crate::netscn::*;
 use crate::scn::*;
 
 pub fn key_pool() -> Vec<Vec<u8>> {
@@ -125,6 +126,145 @@ fn run_len(r: &mut Rng, max: usize) -> usize {
         0..=4 => r.range(3, 10) as usize,
         5..=7 => r.range(10, 25) as usize,
         _ => r.range(25, max as u64) as usize,
+    }
+}
+
+pub fn utf8_key_pool() -> Vec<String> {
+    let long: String = std::iter::repeat("long-key-").take(34).collect();
+    vec![
+        "".to_string(),
+        "k".to_string(),
+        "key1".to_string(),
+        "key2".to_string(),
+        "user:1".to_string(),
+        "user:10".to_string(),
+        "\u{43a}\u{43b}\u{44e}\u{447}".to_string(),
+        "\u{1f511}".to_string(),
+        "a b".to_string(),
+        "line\r\nbreak".to_string(),
+        "nul\u{0}byte".to_string(),
+        long,
+        "SET".to_string(),
+        "$5".to_string(),
+    ]
+}
+
+pub fn pick_utf8_keys(r: &mut Rng, n: usize) -> Vec<String> {
+    let mut pool = utf8_key_pool();
+    let mut out = Vec::new();
+    for _ in 0..n.min(pool.len()) {
+        let i = r.usize_below(pool.len());
+        out.push(pool.swap_remove(i));
+    }
+    out
+}
+
+pub fn net_params(r: &mut Rng) -> NetParams {
+    NetParams {
+        capacity: *r.pick(&[64, 256, 4096, 65536, 65536]),
+        max_delay_us: *r.pick(&[0, 0, 50, 50_000]),
+        read_mode: r.below(4) as u8,
+        mss: *r.pick(&[1, 2, 3, 7, 100, 1460]),
+        spurious_pm: *r.pick(&[0, 0, 50, 200]),
+        accept_err_pm: 0,
+        backlog: *r.pick(&[1, 4, 128]),
+        write_chunk: *r.pick(&[0, 0, 1, 7, 100]),
+    }
+}
+
+pub fn net_store_cfg(r: &mut Rng) -> StoreCfg {
+    let mut c = StoreCfg::default();
+    c.max_file_size = *r.pick(&[60, 300, 4096, 1 << 20]);
+    c.cache = *r.pick(&[0, 2, 256]);
+    c.pool = *r.pick(&[1, 2, 4]);
+    c.thr_small = u64::MAX;
+    c
+}
+
+fn sched_strat(r: &mut Rng) -> Strat {
+    match r.below(5) {
+        0 => Strat::Fifo,
+        1 => Strat::Random(30),
+        2 => Strat::Random(200),
+        3 => Strat::Pct(*r.pick(&[1, 2, 3]), 2000),
+        _ => Strat::Random(500),
+    }
+}
+
+fn base_net(cr: &mut Rng, keys: Vec<String>, clients: Vec<ClientScript>) -> NetScn {
+    NetScn { cfg: net_store_cfg(cr), net: net_params(cr), workers: *cr.pick(&[1, 2, 4]), max_conn: 128, keys, clients, shutdown_us: None, shutdown_step: None, merges: 0, conn: None, min_backoff_ms: 500, max_backoff_ms: 64000 }
+}
+
+fn gen_frame(r: &mut Rng, depth: u32, tag: &mut u32) -> FrameSpec {
+    let texts = ["", "OK", "PONG", "ERR unknown command 'foobar'", "hello world", "x", "\u{43a}\u{43b}\u{44e}\u{447}", ":-)", "$5", "*2"];
+    let ints = [0i64, 1, -1, 10, -10, 42, i64::MAX, i64::MIN, i64::MAX - 1, i64::MIN + 1, 999_999_999_999_999_999, 1_000_000_000_000_000_000, -999_999_999_999_999_999, -1_000_000_000_000_000_000, 123_456_789_012_345_678, 12345];
+    let top = if depth == 0 { 8 } else { 7 };
+    match r.below(top) {
+        0 => FrameSpec::Simple(r.pick(&texts).to_string()),
+        1 => FrameSpec::Error(r.pick(&texts).to_string()),
+        2 | 3 => FrameSpec::Int(*r.pick(&ints)),
+        4 | 5 => {
+            *tag += 1;
+            match r.below(8) {
+                0 => FrameSpec::BulkRaw(vec![]),
+                1 => FrameSpec::BulkRaw(b"\r".to_vec()),
+                2 => FrameSpec::BulkRaw(b"abc\r".to_vec()),
+                3 => FrameSpec::BulkRaw(b"\r\n".to_vec()),
+                4 => FrameSpec::BulkRaw(b"$-1\r\n".to_vec()),
+                5 => FrameSpec::Bulk(Val { tag: *tag, len: *r.pick(&[8190, 8192, 8194, 20_000, 70_000]) }),
+                _ => FrameSpec::Bulk(Val { tag: *tag, len: val_len(r, 0) }),
+            }
+        }
+        6 => FrameSpec::Null,
+        _ => {
+            let n = r.below(5) as usize;
+            FrameSpec::Array((0..n).map(|_| gen_frame(r, depth + 1, tag)).collect())
+        }
+    }
+}
+
+fn hostile_item(r: &mut Rng, thorough: bool) -> Vec<u8> {
+    match r.below(16) {
+        0 => {
+            let n = r.range(1, 200) as usize;
+            let mut b = vec![0u8; n];
+            r.fill(&mut b);
+            b
+        }
+        1 => r.pick(&[&b":123\r\n"[..], b"+PING\r\n", b"*0\r\n", b"$3\r\nGET\r\n", b"-ERR x\r\n", b"$-1\r\n"]).to_vec(),
+        2 => b"*1\r\n*1\r\n$3\r\nGET\r\n".to_vec(),
+        3 => r.pick(&[&b"*1\r\n$4\r\nPING\r\n"[..], b"*2\r\n$4\r\nECHO\r\n$1\r\nx\r\n", b"*2\r\n$3\r\nget\r\n$1\r\nk\r\n", b"*1\r\n$0\r\n\r\n"]).to_vec(),
+        4 => r.pick(&[&b"*1\r\n$3\r\nGET\r\n"[..], b"*3\r\n$3\r\nGET\r\n$1\r\na\r\n$1\r\nb\r\n", b"*2\r\n$3\r\nSET\r\n$1\r\na\r\n", b"*4\r\n$3\r\nSET\r\n$1\r\na\r\n$1\r\nb\r\n$1\r\nc\r\n", b"*1\r\n$3\r\nDEL\r\n", b"*1\r\n$3\r\nSET\r\n"]).to_vec(),
+        5 => r.pick(&[&b"*2\r\n$3\r\nGET\r\n:1\r\n"[..], b"*3\r\n$3\r\nSET\r\n+k\r\n$1\r\nv\r\n", b"*2\r\n:3\r\n$1\r\nk\r\n", b"*2\r\n$3\r\nDEL\r\n$-1\r\n", b"*2\r\n$3\r\nGET\r\n*0\r\n"]).to_vec(),
+        6 => r.pick(&[&b"*2\r\n$3\r\nGET\r\n$2\r\n\xff\xfe\r\n"[..], b"*3\r\n$3\r\nSET\r\n$2\r\n\xc3\x28\r\n$1\r\nv\r\n", b"*2\r\n$3\r\nDEL\r\n$1\r\n\x80\r\n"]).to_vec(),
+        7 => r.pick(&[&b"*2\r\n$3\r\nGET\r\n$5\r\nab"[..], b"*3\r\n$3\r\nSET\r\n$1\r\nk\r\n$100\r\nshort", b"*2\r\n$3\r\nGE", b"*", b"$", b":", b":-", b":+", b"$1", b"*2\r"]).to_vec(),
+        8 => r.pick(&[&b"$9223372036854775807\r\n"[..], b"*9223372036854775807\r\n", b"$9223372036854775806\r\nx", b"*4611686018427387904\r\n", b"$-5\r\n", b"*-1\r\n", b"$-0\r\n", b"*-0\r\n"]).to_vec(),
+        9 => r.pick(&[&b"$+\r\n"[..], b"$-\r\n", b":-\r\n", b":+\r\n", b":\r\n", b"$\r\n", b"*\r\n", b"*+2\r\n$3\r\nGET\r\n$1\r\nk\r\n"]).to_vec(),
+        10 => r.pick(&[&b"$99999999999999999999\r\n"[..], b":99999999999999999999\r\n", b":-99999999999999999999\r\n", b"*99999999999999999999\r\n", b":9223372036854775808\r\n", b":-9223372036854775809\r\n"]).to_vec(),
+        11 => {
+            // a 20-digit number at a buffer offset beyond 18
+            let mut b = b"*2\r\n$3\r\nGET\r\n".to_vec();
+            let tail: &[u8] = *r.pick(&[&b"$12345678901234567890\r\n"[..], b"$99999999999999999999\r\n", b":55555555555555555555\r\n", b"$-12345678901234567890\r\n"]);
+            b.extend_from_slice(tail);
+            b
+        }
+        12 | 13 => {
+            let depths: &[usize] = if thorough { &[2, 64, 4096, 65_536, 262_144] } else { &[2, 64, 4096, 65_536] };
+            let d = *r.pick(depths);
+            let mut b = Vec::with_capacity(d * 4 + 8);
+            for _ in 0..d {
+                b.extend_from_slice(b"*1\r\n");
+            }
+            if r.one_in(2) {
+                b.extend_from_slice(b":1\r\n");
+            }
+            b
+        }
+        14 => b"\r\n\r\n\r\n".to_vec(),
+        _ => {
+            // a command name that is not a bulk string, followed by well-formed arguments
+            b"*3\r\n+SET\r\n$1\r\nk\r\n$3\r\nabc\r\n".to_vec()
+        }
     }
 }
 
@@ -456,6 +596,382 @@ pub fn generate(check: &str, tier: &str, seed: u64) -> Scenario {
                 sim.max_latency_us = *cr.pick(&[100, 20_000]);
             }
             Scenario { check: check.to_string(), seed, sim, body: Body::Store(StoreScn { cfg, keys, threads, fault: None, fault_reads: false, max_crash_points: 0, extra: 0 }) }
+        }
+        "C06" => {
+            let nkeys = cr.range(2, 6) as usize;
+            let keys = pick_utf8_keys(&mut cr, nkeys);
+            let mut net = net_params(&mut cr);
+            let n = match r.below(10) {
+                0..=4 => r.range(1, 6) as usize,
+                5..=7 => r.range(6, 15) as usize,
+                _ => r.range(15, 40) as usize,
+            };
+            let big = *cr.pick(&[0, 5, 20]);
+            let window = *cr.pick(&[1usize, 1, 2, 3, 8, 1000]);
+            let mut steps = Vec::new();
+            for _ in 0..n {
+                let k = r.usize_below(nkeys);
+                let req = match r.below(10) {
+                    0..=3 => {
+                        tag += 1;
+                        Req::Set(k, Val { tag, len: val_len(&mut r, big) })
+                    }
+                    4..=6 => Req::Get(k),
+                    _ => {
+                        let m = r.range(1, 5) as usize;
+                        Req::Del((0..m).map(|_| r.usize_below(nkeys)).collect())
+                    }
+                };
+                steps.push(CStep::Send(req));
+                steps.push(CStep::Await(window - 1));
+            }
+            steps.push(CStep::Await(0));
+            if cr.one_in(2) {
+                steps.push(CStep::HalfClose);
+                steps.push(CStep::ReadToEof);
+            }
+            let client = ClientScript { start_us: 0, chunk_mode: cr.below(3) as u8, chunk_n: *cr.pick(&[2, 5, 17, 200]), chunk_pause_us: *cr.pick(&[0, 0, 10]), hostile: false, steps };
+            if client.chunk_mode == 1 && n > 15 {
+                net.max_delay_us = net.max_delay_us.min(50);
+            }
+            let mut sim = SimParams::default();
+            sim.num_cpus = *cr.pick(&[1, 2, 4]);
+            sim.strat = sched_strat(&mut cr);
+            Scenario {
+                check: check.to_string(),
+                seed,
+                sim,
+                body: Body::Net(NetScn { cfg: net_store_cfg(&mut cr), net, workers: *cr.pick(&[1, 2, 4]), max_conn: 128, keys, clients: vec![client], shutdown_us: None, shutdown_step: None, merges: 0, conn: None, min_backoff_ms: 500, max_backoff_ms: 64000 }),
+            }
+        }
+        "C11" => {
+            let nkeys = cr.range(2, 3) as usize;
+            let keys = pick_utf8_keys(&mut cr, nkeys);
+            let mut net = net_params(&mut cr);
+            net.max_delay_us = *cr.pick(&[0, 0, 20, 2000]);
+            let nclients = cr.range(2, 4) as usize;
+            let mut clients = Vec::new();
+            for _ in 0..nclients {
+                let n = r.range(3, 12) as usize;
+                let window = *cr.pick(&[1usize, 1, 2, 3]);
+                let mut steps = Vec::new();
+                for _ in 0..n {
+                    let k = r.usize_below(nkeys);
+                    let req = match r.below(10) {
+                        0..=3 => {
+                            tag += 1;
+                            Req::Set(k, Val { tag, len: *r.pick(&[8, 9, 40, 8200]) })
+                        }
+                        4..=7 => Req::Get(k),
+                        _ => Req::Del(vec![k]),
+                    };
+                    steps.push(CStep::Send(req));
+                    steps.push(CStep::Await(window - 1));
+                    if r.one_in(6) {
+                        steps.push(CStep::Pause(r.range(1, 3000)));
+                    }
+                }
+                steps.push(CStep::Await(0));
+                clients.push(ClientScript { start_us: *cr.pick(&[0, 0, 10, 1000]), chunk_mode: *cr.pick(&[0, 0, 2]), chunk_n: 64, chunk_pause_us: 0, hostile: false, steps });
+            }
+            let mut cfg = net_store_cfg(&mut cr);
+            let mut merges = 0;
+            match cr.below(3) {
+                0 => {}
+                1 => merges = cr.range(1, 4) as u32,
+                _ => {
+                    cfg.merge_always = true;
+                    cfg.check_interval_ms = 1;
+                    cfg.jitter = 0.5;
+                    cfg.trig_frag = 0.0;
+                    cfg.trig_dead = 0;
+                }
+            }
+            let mut sim = SimParams::default();
+            sim.num_cpus = *cr.pick(&[1, 2, 4]);
+            sim.strat = sched_strat(&mut cr);
+            if cr.one_in(2) {
+                sim.latency_pm = *cr.pick(&[100, 400]);
+                sim.max_latency_us = *cr.pick(&[10, 2000]);
+            }
+            Scenario {
+                check: check.to_string(),
+                seed,
+                sim,
+                body: Body::Net(NetScn { cfg, net, workers: *cr.pick(&[1, 2, 4]), max_conn: 128, keys, clients, shutdown_us: None, shutdown_step: None, merges, conn: None, min_backoff_ms: 500, max_backoff_ms: 64000 }),
+            }
+        }
+        "C08" => {
+            let nframes = match r.below(10) {
+                0..=5 => r.range(1, 4) as usize,
+                _ => r.range(4, 12) as usize,
+            };
+            let frames: Vec<FrameSpec> = (0..nframes).map(|_| gen_frame(&mut r, 0, &mut tag)).collect();
+            let mut total = Vec::new();
+            for f in &frames {
+                // length of the encoding, to place cuts and stalls
+                fn enc_len(f: &FrameSpec) -> usize {
+                    match f {
+                        FrameSpec::Simple(s) | FrameSpec::Error(s) => 3 + s.len(),
+                        FrameSpec::Int(i) => 3 + format!("{}", i).len(),
+                        FrameSpec::Bulk(v) => 5 + format!("{}", v.len).len() + v.len as usize,
+                        FrameSpec::BulkRaw(b) => 5 + format!("{}", b.len()).len() + b.len(),
+                        FrameSpec::Null => 5,
+                        FrameSpec::Array(a) => 3 + format!("{}", a.len()).len() + a.iter().map(enc_len).sum::<usize>(),
+                    }
+                }
+                total.push(enc_len(f));
+            }
+            let len: usize = total.iter().sum();
+            let mode = cr.below(4);
+            let (cut, stall) = match mode {
+                0 | 1 => (None, None),
+                2 => (Some(1 + r.usize_below(len.min(total[total.len() - 1]).max(1))), None),
+                _ => (None, Some(1 + r.usize_below(len.max(1)))),
+            };
+            let mut net = net_params(&mut cr);
+            if len > 50_000 && net.read_mode == 0 {
+                net.read_mode = 3;
+            }
+            if len > 50_000 {
+                net.max_delay_us = net.max_delay_us.min(50);
+                net.write_chunk = 0;
+            }
+            let mut sim = SimParams::default();
+            sim.num_cpus = 1;
+            sim.strat = sched_strat(&mut cr);
+            let mut ns = base_net(&mut cr, vec![], vec![]);
+            ns.net = net;
+            ns.workers = *cr.pick(&[1, 2]);
+            ns.conn = Some(ConnScn { frames, cut_before_end: cut, stall_at: stall });
+            Scenario { check: check.to_string(), seed, sim, body: Body::Net(ns) }
+        }
+        "C10" => {
+            let nh = cr.range(1, 3) as usize;
+            let nc = cr.range(1, 2) as usize;
+            let nclients = nh + nc;
+            let keys = pick_utf8_keys(&mut cr, nclients * 2);
+            let nkeys = keys.len();
+            let mut clients = Vec::new();
+            for ci in 0..nclients {
+                let hostile = ci < nh;
+                let own: Vec<usize> = (0..nkeys).filter(|k| k % nclients == ci).collect();
+                let mut steps = Vec::new();
+                let gen_req = |r: &mut Rng, tag: &mut u32| -> Req {
+                    let k = *r.pick(&own);
+                    match r.below(10) {
+                        0..=4 => {
+                            *tag += 1;
+                            Req::Set(k, Val { tag: *tag, len: val_len(r, 3) })
+                        }
+                        5..=7 => Req::Get(k),
+                        _ => Req::Del(vec![k, *r.pick(&own)]),
+                    }
+                };
+                if hostile {
+                    for _ in 0..r.below(6) {
+                        steps.push(CStep::Send(gen_req(&mut r, &mut tag)));
+                        steps.push(CStep::Await(0));
+                    }
+                    if r.one_in(3) {
+                        steps.push(CStep::Pause(r.range(1, 2000)));
+                    }
+                    let first = hostile_item(&mut r, thorough);
+                    // a truncated frame could be completed into a valid command by whatever
+                    // follows it, so more garbage only follows items that are complete
+                    let truncated = !first.ends_with(b"\n") || first.starts_with(b"$9") || first.starts_with(b"*9") || first.starts_with(b"*4");
+                    steps.push(CStep::SendRaw(first));
+                    if !truncated && r.one_in(3) {
+                        steps.push(CStep::SendRaw(hostile_item(&mut r, false)));
+                    }
+                    match r.below(4) {
+                        0 => {
+                            steps.push(CStep::Flush);
+                            steps.push(CStep::ReadFor(r.range(100, 100_000)));
+                        }
+                        1 => {
+                            steps.push(CStep::Flush);
+                            steps.push(CStep::Pause(r.range(1, 5000)));
+                            steps.push(CStep::Close);
+                        }
+                        2 => {
+                            steps.push(CStep::Flush);
+                            steps.push(CStep::HalfClose);
+                            steps.push(CStep::ReadFor(r.range(100, 100_000)));
+                        }
+                        _ => {
+                            steps.push(CStep::Flush);
+                            steps.push(CStep::Reset);
+                        }
+                    }
+                } else {
+                    for _ in 0..r.range(3, 12) {
+                        steps.push(CStep::Send(gen_req(&mut r, &mut tag)));
+                        steps.push(CStep::Await(0));
+                        if r.one_in(3) {
+                            steps.push(CStep::Pause(r.range(1, 3000)));
+                        }
+                    }
+                }
+                clients.push(ClientScript { start_us: *cr.pick(&[0, 0, 100, 2000]), chunk_mode: *cr.pick(&[0, 0, 1, 2]), chunk_n: *cr.pick(&[3, 64, 4096]), chunk_pause_us: 0, hostile, steps });
+            }
+            let mut ns = base_net(&mut cr, keys, clients);
+            // deep nesting means hundreds of KiB: keep the transport from crawling
+            let heavy = ns.clients.iter().any(|c| c.steps.iter().any(|s| matches!(s, CStep::SendRaw(b) if b.len() > 10_000)));
+            if heavy {
+                ns.net.read_mode = 2;
+                ns.net.capacity = 65536;
+                ns.net.write_chunk = 0;
+                ns.net.spurious_pm = 0;
+                ns.net.max_delay_us = ns.net.max_delay_us.min(50);
+                for c in ns.clients.iter_mut() {
+                    if c.hostile {
+                        c.chunk_mode = 0;
+                    }
+                }
+            }
+            let mut sim = SimParams::default();
+            sim.num_cpus = *cr.pick(&[1, 2]);
+            sim.strat = sched_strat(&mut cr);
+            Scenario { check: check.to_string(), seed, sim, body: Body::Net(ns) }
+        }
+        "C15" => {
+            let m = cr.range(1, 3) as usize;
+            let nclients = m + cr.range(1, 4) as usize;
+            let keys = pick_utf8_keys(&mut cr, 3);
+            let mut clients = Vec::new();
+            for _ in 0..nclients {
+                let mut steps = Vec::new();
+                // a first exchange (the connection is then definitely being served)
+                let first = r.one_in(8);
+                if !first {
+                    steps.push(CStep::Send(Req::Get(r.usize_below(3))));
+                    steps.push(CStep::Await(0));
+                }
+                for _ in 0..r.below(3) {
+                    tag += 1;
+                    steps.push(CStep::Send(Req::Set(r.usize_below(3), Val { tag, len: 8 })));
+                    steps.push(CStep::Await(0));
+                }
+                if r.one_in(2) {
+                    steps.push(CStep::Pause(r.range(1, 50_000)));
+                }
+                // ending
+                match r.below(7) {
+                    0 => steps.push(CStep::Close),
+                    1 => {
+                        steps.push(CStep::SendRaw(b"*2\r\n$3\r\nGET\r\n$5\r\nab".to_vec()));
+                        steps.push(CStep::Flush);
+                        steps.push(CStep::Close);
+                    }
+                    2 => steps.push(CStep::Reset),
+                    3 => {
+                        steps.push(CStep::SendRaw(b"*1\r\n$4\r\nPING\r\n".to_vec()));
+                        steps.push(CStep::Flush);
+                        steps.push(CStep::ReadToEof);
+                    }
+                    4 => {
+                        steps.push(CStep::ArmPanic);
+                        steps.push(CStep::Send(Req::Get(0)));
+                        steps.push(CStep::Flush);
+                        steps.push(CStep::ReadToEof);
+                    }
+                    5 => {
+                        steps.push(CStep::ArmStoreError);
+                        steps.push(CStep::Send(Req::Get(0)));
+                        steps.push(CStep::Flush);
+                        steps.push(CStep::ReadToEof);
+                    }
+                    _ => {
+                        steps.push(CStep::HalfClose);
+                        steps.push(CStep::ReadToEof);
+                    }
+                }
+                clients.push(ClientScript { start_us: r.range(0, 30_000), chunk_mode: *cr.pick(&[0, 0, 2]), chunk_n: 16, chunk_pause_us: 0, hostile: false, steps });
+            }
+            let mut ns = base_net(&mut cr, keys, clients);
+            ns.max_conn = m;
+            ns.cfg.merge_always = false;
+            ns.cfg.sync = SyncCfg::None;
+            ns.net.accept_err_pm = *cr.pick(&[0, 0, 100, 300]);
+            ns.net.backlog = *cr.pick(&[1, 2, 128]);
+            ns.min_backoff_ms = *cr.pick(&[1, 500]);
+            ns.max_backoff_ms = 64000;
+            let mut sim = SimParams::default();
+            sim.num_cpus = *cr.pick(&[1, 2]);
+            sim.strat = sched_strat(&mut cr);
+            Scenario { check: check.to_string(), seed, sim, body: Body::Net(ns) }
+        }
+        "C16" => {
+            let nclients = cr.range(0, 4) as usize;
+            let keys = pick_utf8_keys(&mut cr, (nclients.max(1)) * 2);
+            let nkeys = keys.len();
+            let mut clients = Vec::new();
+            let firing = if nclients > 0 && cr.one_in(2) { Some(cr.usize_below(nclients)) } else { None };
+            for ci in 0..nclients {
+                let own: Vec<usize> = (0..nkeys).filter(|k| k % nclients == ci).collect();
+                let mut steps = Vec::new();
+                let window = *cr.pick(&[1usize, 1, 2, 4]);
+                let n = r.below(8) as usize;
+                let fire_after = if firing == Some(ci) { Some(r.usize_below(n + 1)) } else { None };
+                for j in 0..n {
+                    if fire_after == Some(j) {
+                        // the signal lands at a scripted state of this connection
+                        match r.below(3) {
+                            0 => {}
+                            1 => {
+                                // mid-frame: part of a request is on its way
+                                steps.push(CStep::SendRaw(b"*2\r\n$3\r\nGET\r\n$".to_vec()));
+                                steps.push(CStep::Flush);
+                            }
+                            _ => {
+                                // mid-command: a complete request was just handed over
+                                tag += 1;
+                                steps.push(CStep::Send(Req::Set(*r.pick(&own), Val { tag, len: *r.pick(&[8, 8200, 30_000]) })));
+                                steps.push(CStep::Flush);
+                            }
+                        }
+                        steps.push(CStep::WaitShutdown);
+                        if steps.iter().any(|s| matches!(s, CStep::SendRaw(_))) {
+                            break;
+                        }
+                    }
+                    let k = *r.pick(&own);
+                    let req = match r.below(10) {
+                        0..=4 => {
+                            tag += 1;
+                            Req::Set(k, Val { tag, len: *r.pick(&[8, 40, 8200, 30_000]) })
+                        }
+                        5..=7 => Req::Get(k),
+                        _ => Req::Del(vec![k]),
+                    };
+                    steps.push(CStep::Send(req));
+                    steps.push(CStep::Await(window - 1));
+                    if r.one_in(4) {
+                        steps.push(CStep::Pause(r.range(1, 4000)));
+                    }
+                }
+                if fire_after == Some(n) {
+                    steps.push(CStep::WaitShutdown);
+                }
+                // every client keeps reading until the stream ends
+                steps.push(CStep::ReadToEof);
+                clients.push(ClientScript { start_us: *cr.pick(&[0, 0, 50, 3000]), chunk_mode: *cr.pick(&[0, 0, 1, 2]), chunk_n: *cr.pick(&[3, 64]), chunk_pause_us: *cr.pick(&[0, 0, 20]), hostile: false, steps });
+            }
+            let mut ns = base_net(&mut cr, keys, clients);
+            if firing.is_none() {
+                ns.shutdown_us = Some(*cr.pick(&[0, 1, 10, 100, 500, 1000, 3000, 10_000, 100_000]));
+            }
+            ns.net.accept_err_pm = *cr.pick(&[0, 0, 200]);
+            ns.min_backoff_ms = *cr.pick(&[1, 500]);
+            let mut sim = SimParams::default();
+            sim.num_cpus = *cr.pick(&[1, 2]);
+            sim.strat = sched_strat(&mut cr);
+            if cr.one_in(2) {
+                sim.latency_pm = *cr.pick(&[200, 600]);
+                sim.max_latency_us = *cr.pick(&[100, 5000]);
+            }
+            Scenario { check: check.to_string(), seed, sim, body: Body::Net(ns) }
         }
         other => panic!("no generator for check {}", other),
     }
